@@ -134,7 +134,7 @@ PROPS = {
   'assumptions': ['default (identity) transformation', 'fdeflate decodes every RFC 1951 stream as the reference does (tested on every generated stream)'],
  },
  'C04': {
-  'level_text': 'Coq theorems (closed under the global context). The property is PROVED for the streaming decoder (C04_decoding_is_delivery_independent): for every byte string, every option set and limit and ANY two ways of '
+  'level_text': 'Coq theorems (closed under the global context). The property is PROVED for the streaming decoder - for the EXECUTABLE model (reference inflater, proved to meet the contract in Proofs/InflatePrefix.v) with NO premise (C04_executable_model_is_delivery_independent), and for any inflater under the prefix-determinacy contract (C04_decoding_is_delivery_independent): for every byte string, every option set and limit and ANY two ways of '
                 'cutting the bytes into successive buffers, the driver feed of the L0 model (the loop the correspondence check runs against StreamingDecoder::update) yields the same observation - the same events other than '
                 'Nothing/ImageData, the same image bytes with every ImageDataFlushed, the same end (complete decoder state incl. metadata at IEND / end of input; the same error and metadata on failure). Only premise: the '
                 'prefix-determinacy contract of the external inflater (output / error / end of stream determined by a prefix stay determined; shown satisfiable). Proof: inflater wrapper cut-invariant in every state -> one transition on '
@@ -182,7 +182,7 @@ PROPS = {
   'timeout_quick': 900,
  },
  'C05': {
-  'level_text': 'Coq theorems (closed under the global context). Bytes (stream machine, premise: prefix-determinacy contract of the external inflater): a stream that decodes without an error reports NO error on any of its prefixes - the run '
+  'level_text': 'Coq theorems (closed under the global context). Bytes (stream machine; for the executable model with its reference inflater NO premise, for any other inflater the prefix-determinacy contract): a stream that decodes without an error reports NO error on any of its prefixes - the run '
                 'ends for lack of input, ready to go on - and however the input then grows (any list of increments) the observation (events, image bytes, metadata, end) is that of decoding the complete input in one go '
                 '(corollaries of the whole-stream delivery theorem of C04). Reader cursor model with the visible input prefix a parameter of every call: a row call that runs out of input changes nothing; finish() is resumable; a '
                 'whole-frame call that runs out of input has written a prefix of the rows and, repeated on any longer input, gives exactly the outcome of one call on that input (rows d1 ++ d2). Not proved: the link between the two '
